@@ -163,6 +163,7 @@ def gen(rng, tier, index):
         spec["how"] = gens.pick(rng, vforms.CONFIGURE)
         spec["xform"] = gens.pick(rng, vforms.PRESENT)
         spec["yform"] = gens.pick(rng, vforms.PRESENT)
+        spec["clobber"] = bool(rng.random() < 0.5)
     return {"spec": spec, "X": X * unit, "y": y, "kind": kind, "links": links, "exhaustive": exhaustive, "unit": unit, "past": past, "carry": carry, "readers": readers}
 
 
